@@ -129,6 +129,36 @@ def random_ops(rng, length):
     return ops
 
 
+def periodic_ops(rng):
+    """the raw periodic API: start / update (bytes, bytearray, the caller's buffer re-used and changed in place,
+    scribbled on afterwards) / stop, several tasks side by side"""
+    ops, live, n = [], [], 0
+    for _ in range(rng.randrange(4, 25)):
+        r = rng.random()
+        if r < 0.3 or not live:
+            n += 1
+            remote = rng.random() < 0.15
+            ops.append({"op": "pstart", "id": rng.choice([0x80, 0x181, 0x7FF, 0x800, 0x1FFFFFFF, rng.randrange(1, 0x800)]),
+                        "d": [] if remote else [rng.randrange(256) for _ in range(rng.randrange(0, 9))],
+                        "period_ms": rng.choice([1, 10, 100, 1000]), "remote": remote,
+                        "as": rng.choice(["bytes", "bytearray"]), "scribble": rng.random() < 0.5})
+            live.append((n, remote))
+        elif r < 0.85:
+            h, remote = rng.choice(live)
+            if remote:
+                continue
+            ops.append({"op": "pupdate", "h": h, "d": [rng.choice([0, 1, 255, rng.randrange(256)]) for _ in range(rng.randrange(0, 9))],
+                        "as": rng.choice(["bytes", "bytearray", "same", "same"]), "scribble": rng.random() < 0.4})
+            if rng.random() < 0.3:
+                ops.append(dict(ops[-1], scribble=False))        # the same data once more
+        else:
+            h, remote = live.pop(rng.randrange(len(live)))
+            ops.append({"op": "pstop", "h": h})
+        if rng.random() < 0.2:
+            ops.append({"op": "send", "id": rng.randrange(0x800), "remote": False, "d": [1, 2, 3]})
+    return ops
+
+
 def sweep_ops(rng, tier):
     """scanner and frame-format rule: every 11-bit id, sampled 29-bit ids"""
     ops = []
@@ -169,6 +199,9 @@ def main():
         for _ in range(120 if args.tier == "quick" else 3000):
             cases.append({"ops": random_ops(rng, rng.choice([60, 150, 400])), "src": "random"})
         cases += [{"ops": o, "src": "sweep"} for o in sweep_ops(rng, args.tier)]
+        prng = random.Random(args.seed * 7919 + 101)        # own stream: the cases above stay what they were
+        for i in range(150 if args.tier == "quick" else 3000):
+            cases.append({"ops": periodic_ops(prng), "src": "periodic", "fixed_tasks": i % 2 == 1})
     results = run_cases("harness.drv_net:run_case", cases, jobs=args.jobs, timeout=120)
     if any(r.get("hang") for r in results):
         raise RuntimeError("driver hang")
